@@ -3,6 +3,7 @@ package iso9660
 import (
 	"io"
 	"os"
+	"time"
 
 	"github.com/diskfs/go-diskfs/internal/vp"
 	"github.com/diskfs/go-diskfs/internal/vp/vpdev"
@@ -16,6 +17,11 @@ import (
 // upper-case identifier with the ";1" and a trailing "." stripped, with Rock Ridge the original name).
 
 const c06HostDevSize = 1 << 20
+
+// c06HostNow: Finalize stamps the volume descriptors with time.Now() as 17-byte decimal dates (strconv/fmt on
+// write, time.Parse on read); the engine runs with this clock value (2024-02-29 23:59:58 UTC), natively the
+// real clock is used. Nothing asserted here depends on those dates.
+const c06HostNow = 1709251198
 
 // c06HostRead reads file p of fs completely (at most max bytes).
 func c06HostRead(fs *FileSystem, p string, max int) ([]byte, error) {
@@ -73,38 +79,22 @@ func c06HostFinalizeRead(fs *FileSystem, disk *vpdev.MemDev, start int64, opts F
 	return rd
 }
 
-// c06HostNames: the names of a listing, in listing order.
-func c06HostNames(rd *FileSystem, dir string) ([]string, bool) {
-	ents, err := rd.ReadDir(dir)
-	if err != nil && !vp.Symbolic() {
-		println("READDIR ERROR:", dir, err.Error())
-	}
-	vp.Assert(err == nil, "directory listed")
-	if err != nil {
-		return nil, false
-	}
-	out := make([]string, 0, len(ents))
-	for _, e := range ents {
-		out = append(out, e.Name())
-	}
-	return out, true
-}
-
-// c06HostSmall: a.txt (0..9 arbitrary bytes), sub/ with b (0..6 arbitrary bytes) and - with Rock Ridge - a
-// symbolic link l -> a.txt.
-func c06HostSmall(rr bool) {
+// c06HostSmall: a.txt (asize arbitrary bytes), sub/ with b (bsize arbitrary bytes) and - with Rock Ridge - a
+// symbolic link l -> a.txt, a.txt with arbitrary permission bits and an arbitrary modification time.
+// The LENGTHS are concrete per variant (0, 1 and the maximum 9 / 6), the contents are solver variables: with a
+// length that is a solver variable Finalize issues writes of symbolic length at symbolic offsets (the data and
+// the padding make([]byte, 2048-size%2048) of the last block), an empty file occupies no block (every later
+// extent location becomes symbolic), and each of the ~40000 device bytes fetched by Read then costs solver
+// calls (measured: > 15 min).
+func c06HostSmall(rr bool, asize, bsize int) {
 	vp.HostFS()
+	vp.FixedNow(c06HostNow)
 	disk := vpdev.NewMemDev("disk", -1)
 	fs, ws := c06HostCreate(disk, 0)
 	if fs == nil {
 		return
 	}
 	const capA, capB = 9, 6
-	asize, bsize := vp.Int("asize"), vp.Int("bsize")
-	vp.Assume(asize >= 0)
-	vp.Assume(asize <= capA)
-	vp.Assume(bsize >= 0)
-	vp.Assume(bsize <= capB)
 	a, b := vp.Bytes("a", capA), vp.Bytes("b", capB)
 	amode := os.FileMode(vp.U16("amode")) & 0o777
 	mtime := int64(vp.U32("amtime"))
@@ -117,7 +107,6 @@ func c06HostSmall(rr bool) {
 		vp.Assert(vphost.Symlink("a.txt", ws+"/l") == nil, "workspace symlink l")
 	}
 	vp.Unwind(24)
-	vp.AllocCap(64)
 	rd := c06HostFinalizeRead(fs, disk, 0, FinalizeOptions{RockRidge: rr})
 	if rd == nil {
 		return
@@ -152,7 +141,15 @@ func c06HostSmall(rr bool) {
 		if rr {
 			vp.Assert(fi.Mode().Perm() == amode, "permission bits of a.txt")
 			vp.Assert(fi.Mode().IsRegular(), "a.txt is a regular file")
-			vp.Assert(fi.ModTime().Unix() == mtime, "mtime of a.txt")
+			// the recording date is 7 civil-time bytes. The engine's calendar is a contract model (Year..Second of
+			// a second count and the second count of a civil date are uninterpreted functions), so the expected
+			// value is rebuilt from the same civil components (natively exp == time.Unix(mtime, 0)). Every
+			// uint32 second count lies in the years 1970..2106 (a fact of the calendar, stated for the engine).
+			want := time.Unix(mtime, 0).UTC()
+			vp.Assume(want.Year() >= 1970)
+			vp.Assume(want.Year() <= 2106)
+			exp := time.Date(want.Year(), want.Month(), want.Day(), want.Hour(), want.Minute(), want.Second(), 0, time.UTC)
+			vp.Assert(fi.ModTime().Unix() == exp.Unix(), "mtime of a.txt")
 		}
 	}
 	if rr {
@@ -203,5 +200,318 @@ func c06HostSmall(rr bool) {
 	vp.Cover("tree read back")
 }
 
-func VP_C06_host_plain_small()     { c06HostSmall(false) }
-func VP_C06_host_rockridge_small() { c06HostSmall(true) }
+func VP_C06_host_plain_small()           { c06HostSmall(false, 9, 6) }
+func VP_C06_host_plain_small_1()         { c06HostSmall(false, 1, 1) }
+func VP_C06_host_plain_small_empty()     { c06HostSmall(false, 0, 0) }
+func VP_C06_host_plain_small_mixed()     { c06HostSmall(false, 0, 6) }
+func VP_C06_host_rockridge_small()       { c06HostSmall(true, 9, 6) }
+func VP_C06_host_rockridge_small_1()     { c06HostSmall(true, 1, 1) }
+func VP_C06_host_rockridge_small_empty() { c06HostSmall(true, 0, 0) }
+func VP_C06_host_rockridge_small_mixed() { c06HostSmall(true, 9, 0) }
+
+// c06HostFile: file p of the image reads back as exactly want.
+func c06HostFile(rd *FileSystem, p string, want []byte) {
+	got, err := c06HostRead(rd, p, len(want))
+	if err != nil && !vp.Symbolic() {
+		println("OPEN/READ ERROR:", p, err.Error())
+	}
+	vp.Assert(err == nil, "file readable")
+	vp.Assert(len(got) == len(want), "file length as in the workspace")
+	if len(got) != len(want) {
+		return
+	}
+	for i := range want {
+		vp.Assert(got[i] == want[i], "file content as in the workspace")
+	}
+}
+
+// c06HostListing: directory dir of the image lists exactly the names want (in this order: Finalize keeps
+// the lexical order of the workspace walk) with the given directory flags.
+func c06HostListing(rd *FileSystem, dir string, want []string, isDir []bool) {
+	ents, err := rd.ReadDir(dir)
+	if err != nil && !vp.Symbolic() {
+		println("READDIR ERROR:", dir, err.Error())
+	}
+	vp.Assert(err == nil, "directory listed")
+	if err != nil {
+		return
+	}
+	if len(ents) != len(want) && !vp.Symbolic() {
+		println("LISTING of", dir, "has", len(ents), "entries, want", len(want))
+	}
+	vp.Assert(len(ents) == len(want), "directory lists exactly its own entries")
+	if len(ents) != len(want) {
+		return
+	}
+	for i := range want {
+		if ents[i].Name() != want[i] && !vp.Symbolic() {
+			println("LISTING of", dir, "entry", i, "is", ents[i].Name(), "want", want[i])
+		}
+		vp.Assert(ents[i].Name() == want[i], "entry name")
+		vp.Assert(ents[i].IsDir() == isDir[i], "entry directory flag")
+	}
+}
+
+// VP_C06_host_samename_subdirs: v1/docs/a.txt, v2/docs/b.txt, v3/docs/c.txt, v3/docs/sub/d.txt (three
+// directories called docs with different parents): every directory at every level lists exactly its own
+// entries and every file reads back its own content. Only the END-TO-END result counts here (the path
+// table lookup getLocation itself is KF-C06-1; ReadDir falls back to the tree walk when the lookup finds
+// nothing).
+func VP_C06_host_samename_subdirs() {
+	vp.HostFS()
+	vp.FixedNow(c06HostNow)
+	disk := vpdev.NewMemDev("disk", -1)
+	fs, ws := c06HostCreate(disk, 0)
+	if fs == nil {
+		return
+	}
+	ca, cb, cc, cd := []byte("alpha-1"), []byte("bravo-22"), []byte("charlie-333"), []byte("delta-4444")
+	vp.Assert(vphost.MkdirAll(ws+"/v1/docs", 0o755) == nil, "workspace dir v1/docs")
+	vp.Assert(vphost.MkdirAll(ws+"/v2/docs", 0o755) == nil, "workspace dir v2/docs")
+	vp.Assert(vphost.MkdirAll(ws+"/v3/docs/sub", 0o755) == nil, "workspace dir v3/docs/sub")
+	vp.Assert(vphost.WriteFile(ws+"/v1/docs/a.txt", ca, 0o644) == nil, "workspace file a.txt")
+	vp.Assert(vphost.WriteFile(ws+"/v2/docs/b.txt", cb, 0o644) == nil, "workspace file b.txt")
+	vp.Assert(vphost.WriteFile(ws+"/v3/docs/c.txt", cc, 0o644) == nil, "workspace file c.txt")
+	vp.Assert(vphost.WriteFile(ws+"/v3/docs/sub/d.txt", cd, 0o644) == nil, "workspace file d.txt")
+	vp.Unwind(40)
+	rd := c06HostFinalizeRead(fs, disk, 0, FinalizeOptions{})
+	if rd == nil {
+		return
+	}
+	d, f := true, false
+	c06HostListing(rd, ".", []string{"V1", "V2", "V3"}, []bool{d, d, d})
+	c06HostListing(rd, "V1", []string{"DOCS"}, []bool{d})
+	c06HostListing(rd, "V2", []string{"DOCS"}, []bool{d})
+	c06HostListing(rd, "V3", []string{"DOCS"}, []bool{d})
+	c06HostListing(rd, "V1/DOCS", []string{"A.TXT"}, []bool{f})
+	c06HostListing(rd, "V2/DOCS", []string{"B.TXT"}, []bool{f})
+	c06HostListing(rd, "V3/DOCS", []string{"C.TXT", "SUB"}, []bool{f, d})
+	c06HostListing(rd, "V3/DOCS/SUB", []string{"D.TXT"}, []bool{f})
+	c06HostFile(rd, "V1/DOCS/A.TXT", ca)
+	c06HostFile(rd, "V2/DOCS/B.TXT", cb)
+	c06HostFile(rd, "V3/DOCS/C.TXT", cc)
+	c06HostFile(rd, "V3/DOCS/SUB/D.TXT", cd)
+	vp.Cover("tree with three directories called docs read back")
+}
+
+// c06HostColliding: sibling directories longdirname_alpha/ and longdirname_beta/ (both LONGDIRN after the
+// 8-character upper-case cut), each with one distinct file, and sibling files longfilename_a.txt and
+// longfilename_b.txt (both LONGFILE.TXT).
+//   - plain image: the identifiers recorded in the root directory are pairwise distinct, the two directories
+//     and the two files are all there and each one is reachable with its own content (which of the two
+//     colliding names gets which number is the library's choice and not asserted);
+//   - Rock Ridge: the original names.
+func c06HostColliding(rr bool) {
+	vp.HostFS()
+	vp.FixedNow(c06HostNow)
+	disk := vpdev.NewMemDev("disk", -1)
+	fs, ws := c06HostCreate(disk, 0)
+	if fs == nil {
+		return
+	}
+	one, two := []byte("content of one"), []byte("CONTENT OF TWO!")
+	fa, fb := []byte("file a"), []byte("FILE B.")
+	vp.Assert(vphost.MkdirAll(ws+"/longdirname_alpha", 0o755) == nil, "workspace dir longdirname_alpha")
+	vp.Assert(vphost.MkdirAll(ws+"/longdirname_beta", 0o755) == nil, "workspace dir longdirname_beta")
+	vp.Assert(vphost.WriteFile(ws+"/longdirname_alpha/one.txt", one, 0o644) == nil, "workspace file one.txt")
+	vp.Assert(vphost.WriteFile(ws+"/longdirname_beta/two.txt", two, 0o644) == nil, "workspace file two.txt")
+	vp.Assert(vphost.WriteFile(ws+"/longfilename_a.txt", fa, 0o644) == nil, "workspace file longfilename_a.txt")
+	vp.Assert(vphost.WriteFile(ws+"/longfilename_b.txt", fb, 0o644) == nil, "workspace file longfilename_b.txt")
+	vp.Unwind(40)
+	rd := c06HostFinalizeRead(fs, disk, 0, FinalizeOptions{RockRidge: rr})
+	if rd == nil {
+		return
+	}
+	if rr {
+		d, f := true, false
+		c06HostListing(rd, ".", []string{"longdirname_alpha", "longdirname_beta", "longfilename_a.txt", "longfilename_b.txt"}, []bool{d, d, f, f})
+		c06HostListing(rd, "longdirname_alpha", []string{"one.txt"}, []bool{f})
+		c06HostListing(rd, "longdirname_beta", []string{"two.txt"}, []bool{f})
+		c06HostFile(rd, "longdirname_alpha/one.txt", one)
+		c06HostFile(rd, "longdirname_beta/two.txt", two)
+		c06HostFile(rd, "longfilename_a.txt", fa)
+		c06HostFile(rd, "longfilename_b.txt", fb)
+		vp.Cover("colliding names read back under Rock Ridge")
+		return
+	}
+	ents, err := rd.ReadDir(".")
+	vp.Assert(err == nil, "root listing")
+	if err != nil {
+		return
+	}
+	vp.Assert(len(ents) == 4, "root has exactly two directories and two files")
+	if len(ents) != 4 {
+		return
+	}
+	// identifiers as recorded (raw field of the directory record) and as listed: pairwise distinct, 8.3
+	for i := 0; i < len(ents); i++ {
+		de, ok := ents[i].(*directoryEntry)
+		vp.Assert(ok, "listed entries are *directoryEntry")
+		if !ok {
+			return
+		}
+		if !vp.Symbolic() {
+			println("ROOT ENTRY", i, de.filename, ents[i].Name())
+		}
+		for j := 0; j < i; j++ {
+			vp.Assert(ents[j].(*directoryEntry).filename != de.filename, "recorded identifiers in one directory are pairwise distinct")
+			vp.Assert(ents[j].Name() != ents[i].Name(), "listed names in one directory are pairwise distinct")
+		}
+		if ents[i].IsDir() {
+			vp.Assert(len(ents[i].Name()) <= 8, "directory identifier at most 8 characters")
+		} else {
+			vp.Assert(len(ents[i].Name()) <= 12, "file identifier at most 8.3")
+		}
+	}
+	seenOne, seenTwo, seenA, seenB := 0, 0, 0, 0
+	for i := 0; i < len(ents); i++ {
+		name := ents[i].Name()
+		if ents[i].IsDir() {
+			sub, err := rd.ReadDir(name)
+			vp.Assert(err == nil, "colliding directory listed by its identifier")
+			if err != nil {
+				return
+			}
+			vp.Assert(len(sub) == 1, "colliding directory has exactly its one file")
+			if len(sub) != 1 {
+				return
+			}
+			switch sub[0].Name() {
+			case "ONE.TXT":
+				seenOne++
+				c06HostFile(rd, name+"/ONE.TXT", one)
+			case "TWO.TXT":
+				seenTwo++
+				c06HostFile(rd, name+"/TWO.TXT", two)
+			default:
+				vp.Assert(false, "file of a colliding directory is ONE.TXT or TWO.TXT")
+			}
+			continue
+		}
+		fi, err := ents[i].Info()
+		vp.Assert(err == nil, "info of a colliding file")
+		if err != nil {
+			return
+		}
+		switch fi.Size() {
+		case int64(len(fa)):
+			seenA++
+			c06HostFile(rd, name, fa)
+		case int64(len(fb)):
+			seenB++
+			c06HostFile(rd, name, fb)
+		default:
+			vp.Assert(false, "size of a colliding file is that of longfilename_a.txt or longfilename_b.txt")
+		}
+	}
+	vp.Assert(seenOne == 1, "longdirname_alpha (with one.txt) present exactly once")
+	vp.Assert(seenTwo == 1, "longdirname_beta (with two.txt) present exactly once")
+	vp.Assert(seenA == 1, "longfilename_a.txt present exactly once")
+	vp.Assert(seenB == 1, "longfilename_b.txt present exactly once")
+	vp.Cover("colliding names read back from the plain image")
+}
+
+func VP_C06_host_colliding_dirs()    { c06HostColliding(false) }
+func VP_C06_host_colliding_dirs_rr() { c06HostColliding(true) }
+
+// c06HostPattern: the content byte i of file k.
+func c06HostPattern(k, i int) byte { return byte(i*29 + k*19 + i/253) }
+
+// c06HostBoundary: a file of exactly one block (2048 bytes), a file of one block and one byte (2049), an
+// empty file and a following small file: every file reads back with its size and its bytes (probe positions
+// first/last/around the block boundary are solver variables, the rest a pattern), and the extents do not
+// overlap (KF-C06-10, fixed: a whole extra zero block was written after files that end on a block boundary).
+// Sizes are concrete (a symbolic length of this magnitude costs an ite per buffer byte per copy).
+func c06HostBoundary(opts FinalizeOptions, names [4]string) {
+	vp.HostFS()
+	vp.FixedNow(c06HostNow)
+	disk := vpdev.NewMemDev("disk", -1)
+	fs, ws := c06HostCreate(disk, 0)
+	if fs == nil {
+		return
+	}
+	probes := []int{0, 1, 2046, 2047, 2048}
+	mk := func(k, n int) []byte {
+		b := make([]byte, n)
+		for i := range b {
+			b[i] = c06HostPattern(k, i)
+		}
+		for j, i := range probes {
+			if i < n {
+				b[i] = vp.U8("probe" + string(rune('0'+k)) + string(rune('a'+j)))
+			}
+		}
+		return b
+	}
+	x, y, e, z := mk(1, 2048), mk(2, 2049), []byte{}, mk(3, 5)
+	vp.Assert(vphost.WriteFile(ws+"/a.bin", x, 0o644) == nil, "workspace file a.bin")
+	vp.Assert(vphost.WriteFile(ws+"/b.bin", y, 0o644) == nil, "workspace file b.bin")
+	vp.Assert(vphost.WriteFile(ws+"/c.bin", e, 0o644) == nil, "workspace file c.bin")
+	vp.Assert(vphost.WriteFile(ws+"/d.bin", z, 0o644) == nil, "workspace file d.bin")
+	vp.Unwind(40)
+	rd := c06HostFinalizeRead(fs, disk, 0, opts)
+	if rd == nil {
+		return
+	}
+	f := false
+	c06HostListing(rd, ".", names[:], []bool{f, f, f, f})
+	check := func(name string, want []byte) {
+		got, err := c06HostRead(rd, name, len(want))
+		vp.Assert(err == nil, "file readable")
+		vp.Assert(len(got) == len(want), "file length as in the workspace")
+		if len(got) != len(want) {
+			return
+		}
+		for _, i := range probes {
+			if i < len(want) {
+				vp.Assert(got[i] == want[i], "file content at probe position")
+			}
+		}
+		for i := 3; i < len(want); i += 89 {
+			vp.Assert(got[i] == want[i], "file content on the 89-byte grid")
+		}
+	}
+	check(names[0], x)
+	check(names[1], y)
+	check(names[2], e)
+	check(names[3], z)
+	// extents: inside the volume, behind the volume descriptors, pairwise disjoint
+	ents, err := rd.ReadDir(".")
+	if err != nil || len(ents) != 4 {
+		return
+	}
+	var loc, blocks [4]int64
+	for i := range ents {
+		st, ok := ents[i].(*directoryEntry).Sys().(*StatT)
+		vp.Assert(ok, "Sys() of a listed entry is *StatT")
+		if !ok {
+			return
+		}
+		fi, _ := ents[i].Info()
+		loc[i] = int64(st.Location)
+		blocks[i] = (fi.Size() + 2047) / 2048
+		if blocks[i] > 0 {
+			vp.Assert(loc[i] >= 18, "extent behind the volume descriptors")
+			vp.Assert(loc[i]+blocks[i] <= int64(rd.volumes.primary.volumeSize), "extent inside the volume space")
+		}
+	}
+	for i := 0; i < 4; i++ {
+		for j := 0; j < i; j++ {
+			if blocks[i] == 0 || blocks[j] == 0 {
+				continue
+			}
+			disjoint := loc[i]+blocks[i] <= loc[j] || loc[j]+blocks[j] <= loc[i]
+			vp.Assert(disjoint, "file extents do not overlap")
+		}
+	}
+	vp.Cover("files around the block boundary read back")
+}
+
+func VP_C06_host_block_boundary() {
+	c06HostBoundary(FinalizeOptions{}, [4]string{"A.BIN", "B.BIN", "C.BIN", "D.BIN"})
+}
+
+// the configuration KF-C06-10 was found in: with Joliet the Joliet root directory follows the file data
+func VP_C06_host_block_boundary_joliet() {
+	c06HostBoundary(FinalizeOptions{Joliet: true}, [4]string{"a.bin", "b.bin", "c.bin", "d.bin"})
+}
